@@ -104,6 +104,14 @@ fn cases_list(tier: Tier) -> Vec<Value> {
         v.push(json!({"kind": "div0", "ty": k.name(), "operands": "literal"}));
         v.push(json!({"kind": "print", "ty": k.name()}));
         v.push(json!({"kind": "dropped-literal-operations", "ty": k.name()}));
+        // a quotient nobody reads, the divisor known at run time only: the division still happens
+        for dividend in ["literal", "variable", "zero-literal"] {
+            for divisor in ["zero", "one"] {
+                for pos in ["let-wildcard", "unused-let", "statement"] {
+                    v.push(json!({"kind": "dropped-division", "ty": k.name(), "dividend": dividend, "divisor": divisor, "pos": pos}));
+                }
+            }
+        }
     }
     // exhaustive 8-bit arithmetic: all 65536 operand pairs
     for ty in ["int8", "uint8"] {
@@ -280,6 +288,27 @@ fn build(case: &Value) -> Option<(Program, String, bool)> {
                 }
             }
             site = format!("dropped-literal-operations;ty={}", k.name());
+        }
+        "dropped-division" => {
+            let k = kind_of(case["ty"].as_str().unwrap());
+            let (dividend, divisor, pos) = (case["dividend"].as_str().unwrap(), case["divisor"].as_str().unwrap(), case["pos"].as_str().unwrap());
+            // the divisor comes out of a function: nothing about it is known where the division is written
+            items.push(fn_def("divisor", vec![], Some(Ty::Int(k)), lit(k, if divisor == "zero" { 0 } else { 1 })));
+            let (z, a) = (n.fresh("z"), n.fresh("a"));
+            b.push(let_(z, call("divisor", vec![])));
+            b.push(let_(a, lit(k, 10)));
+            b.push(st(println(s("before"))));
+            let e = bin(BinOp::Div, match dividend { "literal" => lit(k, 10), "zero-literal" => lit(k, 0), _ => v(a) }, v(z));
+            match pos {
+                "let-wildcard" => b.push(Stmt::Let(Pat::Wild, None, e)),
+                "unused-let" => {
+                    let q = n.fresh("q");
+                    b.push(let_(q, e));
+                }
+                _ => b.push(st(e)),
+            }
+            b.push(st(println(add(s("after "), to_s(k, v(a))))));
+            site = format!("dropped-division;ty={};dividend={};divisor={};pos={}", k.name(), dividend, divisor, pos);
         }
         "neg" => {
             let k = kind_of(case["ty"].as_str().unwrap());
